@@ -114,6 +114,19 @@ Theorem C20_builtin_defaults_are_spec : forall sub p opt doc,
 Proof. exact Bits.GenProps.CliTable.builtin_defaults_are_spec. Qed.
 Print Assumptions C20_builtin_defaults_are_spec.
 
+(* the Config object is the ONLY way main() learns a configurable option: bits/__main__.py contains no direct read of
+   one from the argparse namespace, and every read_bytes / write_bytes call of main() is given config.input_format /
+   config.output_format (or the constant "raw").  Facts about the source text, extracted by `ast` into
+   Gen/CliTable.v on every run; the behaviour of each such branch is compared with its explicit-flag run by the
+   harness (classes io-...). *)
+Theorem C20_no_direct_args_reads : G.args_config_reads = [].
+Proof. exact Bits.GenProps.CliTable.no_direct_args_reads. Qed.
+Print Assumptions C20_no_direct_args_reads.
+
+Theorem C20_io_calls_use_config : forallb Bits.GenProps.CliTable.io_call_ok G.io_calls = true.
+Proof. exact Bits.GenProps.CliTable.io_calls_use_config. Qed.
+Print Assumptions C20_io_calls_use_config.
+
 (* ------------------------------------------------------------------------------------------------ *)
 (* unknown keys                                                                                      *)
 (* ------------------------------------------------------------------------------------------------ *)
